@@ -10,6 +10,7 @@ Each is a contradiction between what an expression can hold and how it is used, 
            caller finds it exhausted
   UNITGUESS  if <input> >= C: <input> = k * <input>: the unit of an input is guessed from its size (discontinuous; breaks inverses)
   TYPEERASE  f(str(x)) where f branches on isinstance(param, str): the conversion erases the distinction the callee draws
+  ARGSWAP  f(a, b) where the callee's parameters are named (b, a): swapped positional arguments
   CONCAT   in a collection display of string constants, an element written as two adjacent literals (a missing comma): two members
            silently become one
 """
@@ -221,6 +222,35 @@ def typeerase(fn, fn_index):
     return out
 
 
+def argswap(fn, fn_index, method_index):
+    """f(a, b) where the callee's parameters are (b, a): two positional arguments, each named like the other's parameter"""
+    out = []
+    for c in ast.walk(fn):
+        if not isinstance(c, ast.Call):
+            continue
+        callee = None
+        skip = 0
+        if isinstance(c.func, ast.Name) and c.func.id in fn_index:
+            callee = fn_index[c.func.id]
+        elif isinstance(c.func, ast.Attribute) and c.func.attr in method_index and len(
+                {tuple(a.arg for a in f_.args.args) for f_ in method_index[c.func.attr]}) == 1:
+            callee = method_index[c.func.attr][0]
+            skip = 1 if callee.args.args and callee.args.args[0].arg in ('self', 'cls') else 0
+        if callee is None:
+            continue
+        cparams = [a.arg for a in callee.args.args][skip:]
+        names = [a.id if isinstance(a, ast.Name) else None for a in c.args]
+        for i, a in enumerate(names):
+            if a is None or i >= len(cparams) or a == cparams[i] or a not in cparams:
+                continue
+            j = cparams.index(a)
+            if j < len(names) and names[j] == cparams[i] and i < j:
+                out.append(('ARGSWAP', c.lineno,
+                            '`%s` passes `%s` where %s expects `%s` and `%s` where it expects `%s`: the two arguments are swapped'
+                            % (unparse(c)[:70], a, callee.name, cparams[i], names[j], cparams[j]), 'arguments %s / %s of %s' % (a, names[j], callee.name)))
+    return out
+
+
 def scan(repo, scope):
     """[(rel, qualname or '<module>', rule, lineno, message, key)] over the functions of `scope` and the module level of their files"""
     out = []
@@ -234,12 +264,18 @@ def scan(repo, scope):
             for q_, f_ in m_.functions.items():
                 if '.' not in q_:
                     fn_index.setdefault(q_, f_)
+    method_index = {}
+    for m_ in repo.all_python():
+        if m_.rel.startswith('athlib/'):
+            for q_, f_ in m_.functions.items():
+                if '.' in q_:
+                    method_index.setdefault(q_.split('.')[-1], []).append(f_)
     for rel, qs in sorted(by_rel.items()):
         mod = repo.module(rel)
         fns = [(q, mod.functions[q]) for q in sorted(qs) if q in mod.functions]
         for q, fn in fns:
             n_fn += 1
-            for rule, line, msg, key in idx0(fn) + stale(fn) + unitguess(fn) + typeerase(fn, fn_index):
+            for rule, line, msg, key in idx0(fn) + stale(fn) + unitguess(fn) + typeerase(fn, fn_index) + argswap(fn, fn_index, method_index):
                 out.append((rel, q, rule, line, msg, key))
         for q, rule, line, msg, key in oneshot(mod, fns):
             out.append((rel, q, rule, line, msg, key))
